@@ -8,7 +8,9 @@
 (b) writer -> reader round trips over pseudo random plans (random.Random(0));
 (c) own snappy / lz4 decoders agree with cramjam;
 (d) compact protocol: encode -> decode round trip for every IDL struct, and the
-    fixtures' footers decode without non-note issues.
+    fixtures' footers decode without non-note issues;
+(e) planted violations (one per check of the reader) are reported under the
+    expected issue kind.
 Nothing here imports fastparquet, except ``optional_fastparquet_crosscheck``.
 """
 import hashlib
@@ -473,6 +475,128 @@ def check_compact(F):
     return n
 
 
+
+# =============================================================================
+# (e) the reader notices planted violations
+# =============================================================================
+
+def _refoot(data, fn):
+    """Decode the footer, let fn(meta) edit it, re-encode (data area untouched)."""
+    flen = struct.unpack("<I", data[-8:-4])[0]
+    start = len(data) - 8 - flen
+    meta, _, _ = compact.decode(data[:-8], "FileMetaData", start)
+    fn(meta)
+    foot = compact.encode(meta, "FileMetaData")
+    return data[:start] + foot + struct.pack("<I", len(foot)) + b"PAR1"
+
+
+def _repage(data, offset, fn):
+    """Edit the page header at ``offset`` in place; the encoding must keep its length."""
+    hdr, end, _ = compact.decode(data, "PageHeader", offset)
+    fn(hdr)
+    new = compact.encode(hdr, "PageHeader")
+    if len(new) != end - offset:
+        raise AssertionError("page header edit changed its length")
+    return data[:offset] + new + data[end:]
+
+
+def check_negative(F):
+    base_plan = {
+        "schema": [{"name": "a", "repetition": "OPTIONAL", "physical": "INT32"},
+                   {"name": "b", "repetition": "OPTIONAL", "physical": "INT32"},
+                   {"name": "s", "repetition": "REQUIRED", "physical": "BYTE_ARRAY", "converted": "UTF8"}],
+        "row_groups": [{"data": {"a": [1, None, 3, 4, 1, 1, 3, None, 9, 10], "b": [5, 6, None, 8, 5, 5, 6, 6, 7, 7],
+                                 "s": ["x", "y", "x", "z", "x", "y", "x", "z", "x", "y"]},
+                        "chunks": {"a": {"stats": True, "pages": [{"n": 5, "version": 1, "encoding": "RLE_DICTIONARY"}, {"version": 2, "encoding": "RLE_DICTIONARY"}]},
+                                   "b": {"stats": True, "pages": [{"version": 2}]},
+                                   "s": {"pages": [{"encoding": "PLAIN"}]}}}],
+    }
+    good = writer.write(base_plan)
+    pd0 = reader.read(good)
+    F.check(not pd0.issues and not pd0.tolerances, "negative: base file is not clean: %s %s" % (pd0.issues, pd0.tolerances))
+    pages_a = pd0.row_groups[0].chunks[("a",)].pages
+    pages_b = pd0.row_groups[0].chunks[("b",)].pages
+
+    def col(meta, i):
+        return meta["row_groups"][0]["columns"][i]["meta_data"]
+
+    def bump(key, i=0, delta=1):
+        def fn(meta):
+            col(meta, i)[key] += delta
+        return fn
+
+    cases = []
+
+    def footer_case(name, fn, kinds):
+        cases.append((name, _refoot(good, fn), kinds))
+
+    cases.append(("magic head", b"PAR2" + good[4:], {"magic"}))
+    cases.append(("magic tail", good[:-4] + b"PARE", {"magic"}))
+    cases.append(("footer length", good[:-8] + struct.pack("<I", len(good)) + good[-4:], {"footer_len"}))
+    flen = struct.unpack("<I", good[-8:-4])[0]
+    cases.append(("footer trailing byte", good[:-8] + b"\x00" + struct.pack("<I", flen + 1) + b"PAR1", {"footer_trailing"}))
+    fstart = len(good) - 8 - flen
+    F.check(good[fstart] == 0x15, "negative: footer does not start with field 1 / i32")
+    cases.append(("version written as i64", good[:fstart] + b"\x16" + good[fstart + 1:], {"thrift"}))
+    footer_case("file num_rows", lambda m: m.__setitem__("num_rows", m["num_rows"] + 1), {"num_rows"})
+    footer_case("row group num_rows", lambda m: (m["row_groups"][0].__setitem__("num_rows", 11), m.__setitem__("num_rows", 11)), {"num_rows"})
+    footer_case("num_values", bump("num_values"), {"num_values"})
+    footer_case("total_compressed_size", bump("total_compressed_size"), {"page_tiling", "compressed_size"})
+    footer_case("total_uncompressed_size", bump("total_uncompressed_size", 1, -1), {"uncompressed_size"})
+    footer_case("encodings emptied", lambda m: col(m, 2).__setitem__("encodings", []), {"encodings_list"})
+    footer_case("encodings without RLE", lambda m: col(m, 2).__setitem__("encodings", [0]), set())
+    footer_case("level encoding unlisted", lambda m: col(m, 0).__setitem__("encodings", [0, 8]), {"encodings_list_levels"})
+    footer_case("encoding_stats", lambda m: col(m, 1)["encoding_stats"][0].__setitem__("count", 2), {"encoding_stats"})
+    footer_case("codec id", lambda m: col(m, 1).__setitem__("codec", 99), {"codec"})
+    footer_case("null_count", lambda m: col(m, 0)["statistics"].__setitem__("null_count", 3), {"null_count"})
+    footer_case("max below data", lambda m: col(m, 1)["statistics"].__setitem__("max_value", struct.pack("<i", 7)), {"stats_bounds"})
+    footer_case("statistic width", lambda m: col(m, 1)["statistics"].__setitem__("min_value", b"\x00"), {"stats_decode"})
+    footer_case("data_page_offset", bump("data_page_offset", 1, 1), {"data_offset"})
+    footer_case("dictionary_page_offset above data", lambda m: col(m, 0).__setitem__("dictionary_page_offset", col(m, 0)["data_page_offset"] + 1), {"dict_offset"})
+    footer_case("chunks overlap", lambda m: col(m, 1).update(dict((k, col(m, 0)[k]) for k in (
+        "data_page_offset", "dictionary_page_offset", "total_compressed_size", "total_uncompressed_size", "encodings", "encoding_stats", "statistics", "num_values"))),
+        {"chunk_overlap"})
+    footer_case("path_in_schema", lambda m: col(m, 1).__setitem__("path_in_schema", [b"zz"]), {"schema"})
+    footer_case("physical type", lambda m: col(m, 1).__setitem__("type", 2), {"schema"})
+    footer_case("column dropped", lambda m: m["row_groups"][0]["columns"].pop(), {"schema"})
+    v2a = [p for p in pages_a if p.kind == "v2"][0]
+    cases.append(("v2 num_nulls", _repage(good, v2a.offset, lambda h: h["data_page_header_v2"].__setitem__("num_nulls", 2)), {"null_count"}))
+    cases.append(("v2 num_rows", _repage(good, v2a.offset, lambda h: h["data_page_header_v2"].__setitem__("num_rows", 4)), {"num_rows"}))
+    cases.append(("v2 def length", _repage(good, v2a.offset, lambda h: h["data_page_header_v2"].__setitem__("definition_levels_byte_length", 1)),
+                  {"level_framing"}))
+    cases.append(("dictionary shortened", _repage(good, pages_a[0].offset, lambda h: h["dictionary_page_header"].__setitem__("num_values", 4)),
+                  {"index_out_of_range"}))
+    v1a = [p for p in pages_a if p.kind == "v1"][0]
+    body = v1a.offset + v1a.header_len
+    cases.append(("v1 level length", good[:body] + struct.pack("<I", 1000) + good[body + 4:], {"level_framing"}))
+    cases.append(("page uncompressed size", _repage(good, pages_b[0].offset, lambda h: h.__setitem__("uncompressed_page_size", h["uncompressed_page_size"] + 1)),
+                  {"uncompressed_size"}))
+    bad_utf = writer.write({"schema": [{"name": "s", "repetition": "REQUIRED", "physical": "BYTE_ARRAY", "converted": "UTF8"}],
+                            "row_groups": [{"data": {"s": ["ok", {"hex": "ff"}]}}]})
+    cases.append(("invalid utf-8", bad_utf, {"utf8"}))
+    bad_int = writer.write({"schema": [{"name": "i", "repetition": "REQUIRED", "physical": "INT32", "converted": "INT_8"}],
+                            "row_groups": [{"data": {"i": [1, 300]}}]})
+    cases.append(("INT_8 out of range", bad_int, {"int_range"}))
+    lzo = writer.write({"schema": [{"name": "i", "repetition": "REQUIRED", "physical": "INT32"}],
+                        "row_groups": [{"data": {"i": [1, 2]}, "chunks": {"i": {"codec": "LZO"}}}]})
+    cases.append(("LZO", lzo, {"unsupported"}))
+    n = 0
+    for name, data, kinds in cases:
+        try:
+            pd = reader.read(data)
+        except Exception as e:
+            F.check(False, "negative %s: reader raised %s: %s" % (name, type(e).__name__, e))
+            continue
+        got = set(pd.issue_kinds())
+        if kinds:
+            # the planted defect must be reported under (one of) its own kind(s);
+            # follow-up issues caused by the same defect are not counted against the reader
+            F.check(bool(got & kinds), "negative %s: issue kinds %s, expected one of %s (%s)" % (name, sorted(got), sorted(kinds), pd.issues[:2]))
+        else:
+            F.check(not got, "negative %s: unexpected issues %s" % (name, pd.issues[:2]))
+        n += 1
+    return n
+
 # =============================================================================
 # dremel
 # =============================================================================
@@ -512,8 +636,8 @@ def optional_fastparquet_crosscheck(F):
             theirs = list(df[col])
             ok = len(mine) == len(theirs)
             for a, b in zip(mine, theirs):
-                if a is None:
-                    ok = ok and (b is None or b is np.nan or b != b or str(b) in ("<NA>", "NaT"))
+                if a is None or str(b) in ("<NA>", "NaT", "None", "nan"):
+                    ok = ok and a is None and str(b) in ("<NA>", "NaT", "None", "nan")
                 elif hasattr(b, "value"):
                     ok = ok and a == b.value
                 elif isinstance(a, str) and isinstance(b, bytes):
@@ -550,7 +674,8 @@ def main(argv=None):
     t0 = time.time()
     parts = []
     for label, fn in (("fixtures", check_fixtures), ("dremel", check_dremel), ("codecs", check_codecs),
-                      ("compact", check_compact), ("directed", check_directed_roundtrips)):
+                      ("compact", check_compact), ("directed", check_directed_roundtrips),
+                      ("negative", check_negative)):
         t1 = time.time()
         try:
             n = fn(F)
